@@ -99,6 +99,52 @@ Proof.
 Qed.
 Print Assumptions C09_seq_frame.
 
+(* WHAT THE CALLER OWNS.  In every history, from every world: the streams the caller handed over keep their
+   state (open, positioned after the text) across any number of calls -- successful or REFUSED, readers or
+   writers; every observation of `run` reports exactly those states and no file handle left open by the
+   library; a refused call (spec = ARaise: unsupported format, unknown parser, no format at all) leaves the
+   whole world as it was, so the stream it was given holds what it held. *)
+Theorem C09_seq_streams_stay_open : forall w p,
+  (forall s, get_sstate (final w p) s = get_sstate w s) /\
+  (streams_ready w = true -> streams_ready (final w p) = true) /\
+  (forall ob, In ob (run w p) -> ob_sstate ob = map snd (w_sstate w) /\ ob_left_open ob = 0).
+Proof.
+  intros; split; [|split]; intros;
+    [apply stream_state_preserved | apply streams_stay_ready; assumption | apply (run_obs_owned w p); assumption].
+Qed.
+Print Assumptions C09_seq_streams_stay_open.
+
+Theorem C09_seq_refused_leaves_world : forall w pre c slot o v md e,
+  spec c = ARaise e ->
+  step (final w pre) (OCall c slot o v md) = (final w pre, (ARaise e, None)) /\
+  (forall s, get_stream (final w (pre ++ [OCall c slot o v md])) s = get_stream (final w pre) s /\
+             get_sstate (final w (pre ++ [OCall c slot o v md])) s = get_sstate w s).
+Proof.
+  intros w pre c slot o v md e H. split; [apply refused_leaves_world; exact H|].
+  intros s. destruct (refused_dump_keeps_stream w pre c slot o v md e s H) as [H1 [H2 _]]. split; assumption.
+Qed.
+Print Assumptions C09_seq_refused_leaves_world.
+
+(* the hypotheses are met: a dump into a stream without a format, with an unknown format and with an unknown
+   writer are all refused, between two dumps that succeed into the same stream *)
+Example C09_seq_owned_nonvacuous :
+  let cs := mk_cell VDump FXyz FsExplicit OMol false TStream PMolli false in
+  let cn := mk_cell VDump FXyz FsSuffix OMol false TStream PMolli false in
+  let cu := mk_cell VDump FUnknown FsExplicit OEns false TStream PMolli false in
+  let cp := mk_cell VDump FMol2 FsExplicit OMol false TStream PUnknown false in
+  let w := mk_world [] [(0, []); (1, [])] [(0, SOpenAtEnd); (1, SOpenAtEnd)] in
+  streams_ready w = true /\ spec cn = ARaise XUnsupported /\ spec cu = ARaise XUnsupported /\
+  spec cp = ARaise XUnsupported /\
+  map (fun ob => (ob_streams ob, ob_sstate ob, ob_left_open ob))
+      (run w [OCall cs 0 0 0 MAppend; OCall cn 0 0 0 MAppend; OCall cu 0 1 0 MAppend; OCall cp 0 0 0 MAppend;
+              OCall cs 0 0 1 MAppend])
+  = [([[TW (VDump, FXyz) 0 0]; []], [SOpenAtEnd; SOpenAtEnd], 0);
+     ([[TW (VDump, FXyz) 0 0]; []], [SOpenAtEnd; SOpenAtEnd], 0);
+     ([[TW (VDump, FXyz) 0 0]; []], [SOpenAtEnd; SOpenAtEnd], 0);
+     ([[TW (VDump, FXyz) 0 0]; []], [SOpenAtEnd; SOpenAtEnd], 0);
+     ([[TW (VDump, FXyz) 0 0; TW (VDump, FXyz) 0 1]; []], [SOpenAtEnd; SOpenAtEnd], 0)].
+Proof. vm_compute. repeat split; reflexivity. Qed.
+
 Theorem C09_seq_check_sound : forall sc, check_seq sc = true -> run (sc_init sc) (sc_prog sc) = sc_obs sc.
 Proof. exact check_seq_sound. Qed.
 Print Assumptions C09_seq_check_sound.
@@ -110,7 +156,7 @@ Example C09_seq_nonvacuous :
   let ca := mk_cell VLoadAll FXyz FsSuffix OMol true TPathObj PMolli false in
   let cd := mk_cell VDump FXyz FsSuffix OMol false TPath PMolli false in
   let k := fkey_of cl 0 in
-  let w := mk_world [(k, [TDoc 1]); (fkey_of cd 0, [TDoc 5])] [(0, [])] in
+  let w := mk_world [(k, [TDoc 1]); (fkey_of cd 0, [TDoc 5])] [(0, [])] [(0, SOpenAtEnd)] in
   is_load cl = true /\ spec cl = ARet (RCtor KMol 0 NNone) /\
   spec cd = AWrote (VDump, FXyz) SOpenedPath true /\ fkey_of ca 0 = fkey_of cd 0 /\
   map (fun ob => snd (ob_res ob))
